@@ -13,5 +13,6 @@ CONFIG = dict(
           "boundary right after a deciding event and a boundary with undecided roots in >= 2 frames; classes count boundaries right after "
           "decisions and right after seals; distinct by scenario hash."),
     assumptions=["forking validators hold < 1/3 of the weight"],
+    level_more='In a quarter of the cases the running instance first tried the epoch with outdated weights; in half of them its application keeps editing the builders its validator sets were built from.',
     units=[dict(test="TestC08Restart", quick=250, thorough=9600, shards=16, timeout_t=10000)],
 )
